@@ -39,6 +39,36 @@ def worker_init():
     simdev.install()
 
 
+_P = 2 ** 256 - 2 ** 32 - 977
+
+
+def key_norm(b):
+    """independent reading of a public key in any SEC1 / raw encoding python-ecdsa accepts: the uncompressed
+    encoding (hex) or None when it is not a point of secp256k1"""
+    def on_curve(x, y):
+        return x < _P and y < _P and (y * y - x * x * x - 7) % _P == 0
+    if len(b) == 64:
+        x, y = int.from_bytes(b[:32], "big"), int.from_bytes(b[32:], "big")
+        return (b"\x04" + b).hex() if on_curve(x, y) else None
+    if len(b) == 65 and b[0] in (4, 6, 7):
+        x, y = int.from_bytes(b[1:33], "big"), int.from_bytes(b[33:], "big")
+        if not on_curve(x, y) or (b[0] in (6, 7) and (y & 1) != (b[0] & 1)):
+            return None
+        return (b"\x04" + b[1:]).hex()
+    if len(b) == 33 and b[0] in (2, 3):
+        x = int.from_bytes(b[1:], "big")
+        if x >= _P:
+            return None
+        y2 = (x * x * x + 7) % _P
+        y = pow(y2, (_P + 1) // 4, _P)
+        if (y * y) % _P != y2:
+            return None
+        if (y & 1) != (b[0] & 1):
+            y = _P - y
+        return (b"\x04" + b[1:] + y.to_bytes(32, "big")).hex()
+    return None
+
+
 def run_impl(op, inp):
     import logging
     logging.disable(logging.CRITICAL)
@@ -123,6 +153,9 @@ def run_impl(op, inp):
         out["events"] = list(simdev.CTX.events)
         minp = dict(inp)
         minp["script"] = [simdev.norm_entry(e) for e in simdev.CTX.recorded]
+        if inp["cmd"] == "pubkeys":
+            minp["key_norm"] = {e[1].hex(): key_norm(bytes(e[1])) for e in simdev.CTX.recorded
+                                if e[0] == "d" and len(e[1]) <= 70}
         return {"__model_input__": minp, "out": out}
     finally:
         sys.stdin, misc.getpass, os.urandom, misc.time.sleep, onboard.dispose_hsm = saved
